@@ -146,6 +146,8 @@ struct Script {
     sync_fault: bool,
     /// the async puller is driven over a `WebSocketClient` instead of an `AsyncClient`
     ws: bool,
+    /// the caller-supplied `verify` panics (`verify_ok` is false as well: nothing may be published)
+    verify_panics: bool,
 }
 
 /// Deterministic filler for large bodies (`g<seed>.<len>` on the line protocol; twin of `genBytes`).
@@ -204,7 +206,7 @@ impl Script {
                 Open::Err => "err",
                 Open::Cut => "cut",
             },
-            if self.verify_ok { "ok" } else { "rej" },
+            if self.verify_panics { "panic" } else if self.verify_ok { "ok" } else { "rej" },
             self.trailer,
             match self.dest {
                 Dest::Old => "old",
@@ -252,6 +254,7 @@ impl Script {
                     _ => Open::Cut,
                 },
                 verify_ok: w[4] == "ok",
+                verify_panics: w[4] == "panic",
                 trailer: w[5].parse().ok()?,
                 dest: match w[6] {
                     "old" => Dest::Old,
@@ -728,6 +731,8 @@ fn show_dest(s: &DestState) -> String {
 }
 
 struct Obs {
+    /// the call unwound with a panic (from the caller-supplied verify)
+    panicked: bool,
     ok: bool,
     dest: DestState,
     tmp: bool,
@@ -761,6 +766,9 @@ fn oracles(out: &mut Out, sc: &Script, o: &Obs, op: &str) {
     }
     // a pull that fails before it creates its temp file cannot be blamed for a stale one
     let never_created = sc.open != Open::Ok || !sc.puller.tags_ok(sc.zstd, sc.beve) || sc.dest == Dest::NoParent;
+    if o.panicked && !sc.verify_panics {
+        out.oracle_fail(&format!("commit.{p}.panic"), "the pull panicked although no caller-supplied code does", &ops);
+    }
     if o.tmp && !(sc.dest.stale() && never_created) {
         out.oracle_fail(&format!("commit.{p}.temp-left"), "the .svspart sibling exists after the in-process pull returned", &ops);
     }
@@ -793,7 +801,7 @@ fn oracles(out: &mut Out, sc: &Script, o: &Obs, op: &str) {
 }
 
 fn obs_line(idx: &str, sc: &Script, o: &Obs) -> String {
-    let mut s = format!("{} ret {} dest {} tmp {}", idx, if o.ok { "ok" } else { "err" }, show_dest(&o.dest), o.tmp as u8);
+    let mut s = format!("{} ret {} dest {} tmp {}", idx, if o.panicked { "panic" } else if o.ok { "ok" } else { "err" }, show_dest(&o.dest), o.tmp as u8);
     if sc.puller.has_trailer() && o.ok {
         s.push_str(&format!(" seen {} trailer {}", digest(&o.seen.digest), hex(&o.seen.trailer)));
     }
@@ -824,8 +832,14 @@ impl Ctx {
         let dest = prepare_sc(&dir, sc);
         let seen = Arc::new(Mutex::new(Seen::default()));
         let ws = if sc.ws { self.fake.ws_addr } else { None };
-        let r = call_puller(&self.rt, sc.puller, addr, resource, &dest, sc.trailer, sc.verify_ok, seen.clone(), ws);
-        let o = Obs { ok: r.is_ok(), dest: dest_state(&dest, sc.dest), tmp: tmp_present(&dest), seen: seen.lock().unwrap().clone() };
+        if sc.verify_panics {
+            *VERIFY_HOOK.lock().unwrap() = Some(Box::new(|| panic!("verify panics")));
+        }
+        let r = catch(|| call_puller(&self.rt, sc.puller, addr, resource, &dest, sc.trailer, sc.verify_ok, seen.clone(), ws));
+        *VERIFY_HOOK.lock().unwrap() = None;
+        let panicked = r.is_err();
+        let r = r.unwrap_or_else(|_| Err(rej()));
+        let o = Obs { panicked, ok: r.is_ok(), dest: dest_state(&dest, sc.dest), tmp: tmp_present(&dest), seen: seen.lock().unwrap().clone() };
         let _ = std::fs::remove_dir_all(&dir);
         o
     }
@@ -871,7 +885,7 @@ impl Ctx {
             let _ = std::fs::remove_dir_all(&dir);
             return;
         }
-        let o = Obs { ok: w[1] == "ok", dest: dest_state(&dest, sc.dest), tmp: tmp_present(&dest), seen: Seen::default() };
+        let o = Obs { panicked: false, ok: w[1] == "ok", dest: dest_state(&dest, sc.dest), tmp: tmp_present(&dest), seen: Seen::default() };
         let _ = std::fs::remove_dir_all(&dir);
         oracles(out, sc, &o, op);
         count_case(out, sc, "wfault");
@@ -947,9 +961,9 @@ impl Ctx {
         *VERIFY_HOOK.lock().unwrap() = None;
         self.fake.unregister(&ra);
         self.fake.unregister(&rb);
-        let oa = Obs { ok: r.is_ok(), dest: dest_state(&da, a.dest), tmp: tmp_present(&da), seen: seen.lock().unwrap().clone() };
+        let oa = Obs { panicked: false, ok: r.is_ok(), dest: dest_state(&da, a.dest), tmp: tmp_present(&da), seen: seen.lock().unwrap().clone() };
         let bran = *bres.lock().unwrap();
-        let ob = Obs { ok: bran == Some(true), dest: dest_state(&db, b.dest), tmp: tmp_present(&db), seen: Seen::default() };
+        let ob = Obs { panicked: false, ok: bran == Some(true), dest: dest_state(&db, b.dest), tmp: tmp_present(&db), seen: Seen::default() };
         let _ = std::fs::remove_dir_all(&dir);
         if bran.is_none() {
             out.oracle_fail("commit.nest.inner-pull-did-not-run", "verify of the outer pull was not reached or the inner pull panicked", &[op.clone()]);
@@ -963,7 +977,7 @@ impl Ctx {
 }
 
 fn ob_clone(o: &Obs) -> Obs {
-    Obs { ok: o.ok, dest: o.dest.clone(), tmp: o.tmp, seen: o.seen.clone() }
+    Obs { panicked: false, ok: o.ok, dest: o.dest.clone(), tmp: o.tmp, seen: o.seen.clone() }
 }
 
 fn nontrivial(sc: &Script) -> bool {
@@ -1332,7 +1346,7 @@ impl Ctx {
             }
         };
         // end state as in the in-process runs
-        let o = Obs { ok: r.ret == Some(true), dest: dest_state(&dest, sc.dest), tmp: tmp_present(&dest), seen: Seen::default() };
+        let o = Obs { panicked: false, ok: r.ret == Some(true), dest: dest_state(&dest, sc.dest), tmp: tmp_present(&dest), seen: Seen::default() };
         oracles(out, sc, &o, &op);
         let _ = std::fs::remove_dir_all(&dir);
         count_case(out, sc, "trace");
@@ -1538,7 +1552,7 @@ fn make_script(p: Puller, zstd: bool, logical: &[u8], sizes: &[usize], fault: Op
     let wire_bytes = if zstd { zstd_of(logical) } else { logical.to_vec() };
     let cs = split_at_sizes(&wire_bytes, sizes);
     let wire = wire_of(&cs, fault, last_on_empty);
-    let mut sc = Script { puller: p, zstd, beve: true, open: Open::Ok, verify_ok: true, trailer: 0, dest: Dest::None, dec: Dec::Na, wire, wfault: None, sync_fault: false, ws: false };
+    let mut sc = Script { puller: p, zstd, beve: true, open: Open::Ok, verify_ok: true, trailer: 0, dest: Dest::None, dec: Dec::Na, wire, wfault: None, sync_fault: false, ws: false, verify_panics: false };
     sc.dec = dec_for(&sc);
     sc
 }
@@ -1688,6 +1702,21 @@ fn gen_and_run(args: &Args, out: &mut Out, ctx: &mut Ctx) {
         }
     }
 
+    // a `verify` that panics: the unwinding drops the guard — nothing published, temp file removed
+    for &p in &[Puller::Trailer, Puller::VerifiedAsync, Puller::TrailerAsync] {
+        for zstd in [false, true] {
+            let logical: Vec<u8> = rng.bytes(50).iter().map(|b| b | 1).collect();
+            for (dest, fault) in [(Dest::None, None), (Dest::Old, None), (Dest::Old, Some((1usize, Resp::Cut)))] {
+                let mut sc = make_script(p, zstd, &logical, &[20, 20], fault, false);
+                sc.dest = dest;
+                sc.trailer = if p.has_trailer() { 4 } else { 0 };
+                sc.verify_ok = false;
+                sc.verify_panics = true;
+                ctx.exec_script(out, &next("s"), &sc, 0);
+            }
+        }
+    }
+
     // (A'') where the temp file lives: names, parents, and two pulls side by side in one directory
     for name in ["out", "out.bin", "out.tar.gz", ".hidden", "a b.dat", "x.svspart", "caf\u{e9}.bin", "out.bin.svspart.bak"] {
         ctx.exec_sibling(out, &next("n"), name);
@@ -1795,7 +1824,7 @@ fn gen_and_run(args: &Args, out: &mut Out, ctx: &mut Ctx) {
                 }
                 let r = Real { writer: rng.chance(1, 2), chunk, fail: f, depth: rng.below(5) as usize, payload: payload.clone() };
                 let (wire, dec) = real_wire(&r, zstd);
-                let mut sc = Script { puller: p, zstd, beve: false, open: Open::Ok, verify_ok: true, trailer: if p.has_trailer() { 8 } else { 0 }, dest: *rng.pick(&[Dest::None, Dest::Old]), dec, wire, wfault: None, sync_fault: false, ws: false };
+                let mut sc = Script { puller: p, zstd, beve: false, open: Open::Ok, verify_ok: true, trailer: if p.has_trailer() { 8 } else { 0 }, dest: *rng.pick(&[Dest::None, Dest::Old]), dec, wire, wfault: None, sync_fault: false, ws: false, verify_panics: false };
                 if p.verifies() && f.is_none() && rng.chance(1, 3) {
                     sc.verify_ok = false;
                 }
@@ -2049,6 +2078,7 @@ fn replay(ops: Vec<String>, out: &mut Out, ctx: &mut Ctx) {
                         wfault: None,
                         sync_fault: false,
                         ws: false,
+                        verify_panics: false,
                     };
                     ctx.exec_value(out, &idx, w[2] == "async", &sc, w[7].parse().unwrap_or(0));
                 }
@@ -2064,6 +2094,7 @@ fn main() {
         child_main(&argv[2..]);
     }
     let args = Args::parse();
+    quiet_panics();
     let mut out = Out::new(&args.out);
     out.rule = "fault scripts (chunks then last | error response at k | connection cut at k, failing open, incompatible tags, rejecting verifier, trailer longer than the stream, rename refused) for the 7 file pullers and pull_value(_async) against a scripted SVS peer and the crate's Server with failing reader/writer producers, destination pre-existing or absent, both compression settings: systematic over every k plus random sizes around io::copy's 8 KiB buffer; each traced pull runs in a child under strace (-P dest -P temp), each kill point is strace's SIGKILL injection on entry to the N-th open/write/fsync/close/rename/unlink of the two paths. Non-trivial = at least one non-empty chunk was delivered before the end of the script (every trace / kill case is)".into();
     let work = std::fs::canonicalize(&args.out).expect("out dir").join("work");
